@@ -139,6 +139,8 @@ def execute(case) -> Outcome:
         if result.shape != want_shape:
             out.add(("shape", func, f"engine={engine}"), f"shape {result.shape} != {want_shape}")
             continue
+        if not keys:
+            continue
         res2 = result.reshape(-1, len(keys))
         for irow, (_, rres, _, _) in enumerate(refs):
             bad = mismatch_vs_ref(res2[irow], rres, rtol, atol)
